@@ -69,6 +69,7 @@ def parse_many(ctx, texts, hashseed=0, workers=8):
 def _main(argv):
     from concurrent.futures import ProcessPoolExecutor
     logging.disable(logging.CRITICAL)
+    import geophires_x_client.geophires_x_result  # noqa: F401  (once, before the workers are forked)
     texts = pickle.loads(Path(argv[1]).read_bytes())
     workdir = str(Path(argv[1]).parent)
     with ProcessPoolExecutor(max_workers=int(argv[3])) as ex:
